@@ -409,4 +409,45 @@ example : (writeAll ({} : PQ).reset [(leEncode 2 513, 10), (leEncode 4 67305985,
     ∧ ((writeAll ({} : PQ).reset [(leEncode 2 513, 10), (leEncode 4 67305985, 10)]).2.queue.map (·.data))
         = [[1, 2], [1, 2], [3, 4]] := by decide
 
+
+/-! ## End of message
+
+The receive path asks `IsEOM` after a failed parse to decide between "the message is over: reset" and
+"wait for the next packet", and resets the queue at the end of every message. What these two must
+guarantee so that nothing of one response leaks into the next. -/
+
+/-- `Reset` gives the initial queue: nothing queued, position at the start, the end-of-message state
+cleared — whatever the queue was -/
+theorem c15_reset_is_initial (q : PQ) :
+    q.reset.queue = [] ∧ q.reset.ip = 0 ∧ q.reset.id = 0 ∧ q.reset.eom = false ∧ q.reset.unread = [] := by
+  simp [reset, unread, flat]
+
+/-- **the end of one message does not reach into the next**: after the reset that ends a message, the
+first packet of the next message — one without the end-of-message status — leaves the queue not at end
+of message, however the last message ended -/
+theorem c15_eom_does_not_leak (q : PQ) (p : Packet) (hp : hasEOM p.hdr.status = false) :
+    (q.reset.addPacket p).isEOM = false := by
+  simp [reset, addPacket, isEOM, hp]
+
+/-- `IsEOM` answers yes only when every queued byte has been consumed AND an end-of-message packet was
+queued: on a well-formed queue nothing is left unread then -/
+theorem c15_isEOM_nothing_unread (q : PQ) (h : q.isEOM = true) :
+    q.eom = true ∧ q.unread = [] := by
+  simp only [isEOM, Bool.and_eq_true] at h
+  refine ⟨h.2, ?_⟩
+  have hc := h.1
+  simp only [allConsumed] at hc
+  simp only [unread]
+  match hd : q.queue.drop q.ip with
+  | [] => simp
+  | [p] =>
+    rw [hd] at hc
+    simp only [consumedFrom, beq_iff_eq] at hc
+    simp [flat, hc]
+  | _ :: _ :: _ => rw [hd] at hc; simp [consumedFrom] at hc
+
+/-- non-vacuity: an end-of-message packet consumed to its end -/
+example : ({ queue := [{ hdr := { status := 1, length := 10 }, data := [1, 2] }], ip := 0, id := 2, eom := true } : PQ).isEOM = true := by
+  decide
+
 end Dblib.Props.C15
